@@ -6,7 +6,7 @@ From Chiri Require Import Base.Bytes Base.Res Model.Tokenizer Model.TagParser Mo
      Proofs.TokenizerProofs Proofs.RenameProofs Proofs.C06Proofs Proofs.SimFlat Proofs.SimStrings
      Model.ListRender Spec.TagGrammar Proofs.SimFront Proofs.SimClean Proofs.SimList
      Proofs.WellNested Proofs.DocMask Proofs.AstCollect Proofs.Idempotent Proofs.RespellBodies Proofs.RenameTags
-     Proofs.RenameClean.
+     Proofs.RenameClean Proofs.IdempotentUnwrap Proofs.SimBodyUnwrap Proofs.RespellUnwrap.
 
 (** The full statement for delimiters (kept visible): one abstract document (texts and tag bodies,
     Spec/Rename.v) rendered with two spellings of the delimiters cleans to the two renderings of ONE
@@ -144,11 +144,54 @@ Proof.
   split; [exact ex2_first | exact ex2_second_computed].
 Qed.
 
+(** The same WITH unwrap-block elements (Proofs/SimBodyUnwrap.v, RespellUnwrap.v), in the strict domain
+    of Properties/C19.v (wrapper lines carry no tags, no line break inside a tag body) and for an end
+    delimiter that does not begin with a blank: the unwrap builder, the block dedenter and the paired
+    whitespace stage only look for line breaks and for the first non-blank symbol of a line, so they
+    commute with the respelling of single-line tags. *)
+Theorem C18_renaming_tag_names_with_unwrap_blocks :
+  forall D rho cfg ds de f out,
+    admissible D rho -> cfg_ok D cfg -> tast_ok f -> names_in D f -> strict (to_ast f) ->
+    good_delims ds de -> de_nb de ->
+    good_doc ds de (doc_of (to_ast f)) ->
+    (forall t, In t (openers_of f) -> disjoint_from ds de (rho (tg_name t))) ->
+    clean cfg ds de (render ds de (doc_of (to_ast f))) = Ok out ->
+    exists d d', out = render ds de d /\
+      clean (rename_cfg rho cfg) ds de (render ds de (doc_of (to_ast (rename_tast rho f)))) = Ok (render ds de d') /\
+      kinds_of d' = kinds_of d /\
+      texts_of d' = texts_of d /\
+      Forall2 (P_any rho) (tags_of d) (tags_of d').
+Proof. exact clean_rename_output_unwrap. Qed.
+Print Assumptions C18_renaming_tag_names_with_unwrap_blocks.
+
+Theorem C18_respelling_of_tags_with_unwrap_blocks :
+  forall (P : str -> str -> Prop) cfg cfg' ds de f f' out,
+    good_delims ds de -> de_nb de ->
+    good_doc ds de (doc_of f) -> bodies_ok (doc_of f) -> Forall ast_ok f -> strict f ->
+    good_doc ds de (doc_of f') -> bodies_ok (doc_of f') -> Forall ast_ok f' -> strict f' ->
+    RespellBodies.same_tree P f f' ->
+    (forall b b', P b b' -> el_readyb cfg b = el_readyb cfg' b' /\ is_unwrap b = is_unwrap b') ->
+    clean cfg ds de (render ds de (doc_of f)) = Ok out ->
+    exists g g', out = render ds de (doc_of g) /\
+                 clean cfg' ds de (render ds de (doc_of f')) = Ok (render ds de (doc_of g')) /\
+                 RespellBodies.same_tree P g g' /\ Forall ast_ok g /\ Forall ast_ok g'.
+Proof. exact clean_respell_unwrap. Qed.
+Print Assumptions C18_respelling_of_tags_with_unwrap_blocks.
+
+(** Non-vacuity: a ready "rm … unwrap-block" element containing a pending "tl" element, renamed. *)
+Example C18_renaming_unwrap_example :
+  clean RenameTags.ex_cfg id_ds id_de (render id_ds id_de (doc_of (to_ast ru_tast))) =
+    Ok (render id_ds id_de (doc_of (to_ast ru_out))) /\
+  clean (rename_cfg rho_ex RenameTags.ex_cfg) id_ds id_de
+        (render id_ds id_de (doc_of (to_ast (rename_tast rho_ex ru_tast)))) =
+    Ok (render id_ds id_de (doc_of (to_ast (rename_tast rho_ex ru_out)))).
+Proof. split; [exact ru_first | exact ru_second_computed]. Qed.
+
 (** What is NOT proved: (1) the case of an end delimiter that begins with a blank when no line of
     blanks runs into it ([dedent_ok] rather than [de_nb]); (2) for the listing functions only the
     line ranges and statuses are compared (as the property says), not the highlighted text of the
-    items; (3) respelling of the tag names for documents WITH unwrap-block elements and for the
-    listing functions.  (1)-(3) are validated differentially (metamorphic pairs over 18 delimiter
+    items; (3) respelling of the tag names for the listing functions, and for
+    documents with tags on wrapper lines / multi-line tags inside unwrapped bodies.  (1)-(3) are validated differentially (metamorphic pairs over 18 delimiter
     spellings x 11 tag-name pairs incl. names that are prefixes / suffixes of each other, clean and
     list) in the check of this property.  The older stage-wise theorems are kept below. *)
 
